@@ -60,6 +60,10 @@ def fp_cells(s, leaf):
     tag, t = leaf["tag"], leaf["type"]
     dt = s.dtype
     out = []
+    if isinstance(dt, pd.CategoricalDtype):
+        cats = list(s.cat.categories)
+        s = pd.Series([None if c < 0 else cats[c] for c in s.cat.codes], dtype=object)
+        dt = s.dtype
     if isinstance(dt, pd.DatetimeTZDtype):
         s = s.dt.tz_convert("UTC").dt.tz_localize(None)
         dt = s.dtype
@@ -190,7 +194,7 @@ def features(lf):
     return f
 
 
-def run_case(lf, table, scratch):
+def run_case(lf, table, scratch, cats=False):
     """encode with the spec encoder, read with fastparquet -> dict(outcome, problems, ...)"""
     from harness import fmtlib
     pq = _pq()
@@ -213,7 +217,10 @@ def run_case(lf, table, scratch):
         f.write(data)
     import fastparquet
     try:
-        df = fastparquet.ParquetFile(fn).to_pandas()
+        if cats:
+            df = fastparquet.ParquetFile(fn).to_pandas(categories=[l["name"] for l in lf["leaves"]])
+        else:
+            df = fastparquet.ParquetFile(fn).to_pandas()
     except Exception as e:   # noqa
         import traceback
         res["outcome"] = "raised"
@@ -229,7 +236,7 @@ def run_case(lf, table, scratch):
             res["problems"].append(("schema", "column %s missing" % l["name"]))
             continue
         s = df[l["name"]]
-        if str(s.dtype) not in DTYPES[l["tag"]] and not (l["optional"] and str(s.dtype) == "float64" and l["type"] in (1, 2)):
+        if not cats and str(s.dtype) not in DTYPES[l["tag"]] and not (l["optional"] and str(s.dtype) == "float64" and l["type"] in (1, 2)):
             res["problems"].append(("dtype", "column %s (%s): dtype %s, schema implies %s" % (l["name"], l["tag"], s.dtype, "/".join(DTYPES[l["tag"]]))))
         got = fp_cells(s, l)
         exp = table[l["name"]]
@@ -248,7 +255,7 @@ def _job(job):
     tmp = tempfile.mkdtemp(prefix="verif-C03w-", dir="/tmp")
     try:
         try:
-            res = run_case(lf, table, tmp)
+            res = run_case(lf, table, tmp, cats=bool(expect.get("categories")))
         except Exception:   # noqa
             import traceback
             return {"outcome": "harness-error", "err": traceback.format_exc()[-1500:], "problems": []}
@@ -330,6 +337,11 @@ def gen_jobs(ctx):
         lf, table = G.gen_lfile(rng, knobs)
         jobs.append((lf, table, {"expect": expect, "stream": stream}))
 
+    # 0. corpus of minimised past disagreements
+    import glob
+    for fn in sorted(glob.glob(os.path.join(C.VERIF, "corpus", "C03", "*.json"))):
+        c = json.load(open(fn))
+        jobs.append((c["lfile"], c["table"], c["expect"]))
     # 1. random layouts in the region the reader is supposed to support
     for _ in range(260 if quick else 6000):
         add({"width": None, "created_by": rng.choice(["spec-encoder", "parquet-mr version 1.12.3"])})
@@ -362,6 +374,15 @@ def gen_jobs(ctx):
     for _ in range(30 if quick else 300):
         add({"encs": ["dict", "dict", "plain"], "second_dict": True, "split": "some", "rows": rng.choice([9, 40, 65]),
              "ncols": 1, "created_by": "spec-encoder"}, stream="dict-pages")
+    # 6b. the same dictionary-encoded chunks read as categoricals (categories=[column]): v1/v2, index widths 0..9,
+    #     several runs, NULLs
+    for w in [0, 1, 2, 3, 5, 7, 8, 9]:
+        for v2 in (False, True):
+            for _ in range(1 if quick else 6):
+                lf, table = G.gen_lfile(rng, {"coltype": rng.choice([G.COLTYPES[21], G.COLTYPES[10]]), "encs": ["dict"], "width": w, "ncols": 1,
+                                              "nrgs": 1, "rows": rng.choice([1, 9, 40, 65]), "second_dict": False, "v2": v2, "split": "one",
+                                              "created_by": "spec-encoder"})
+                jobs.append((lf, table, {"expect": "decode", "stream": "categories", "categories": True}))
     # 7. encodings the reader does not implement must be refused
     for enc in (6, 7, 9):
         for v2 in (False, True):
